@@ -249,11 +249,13 @@ def round_number(value: Union[float, int, Decimal]) -> Union[float, int, Decimal
     if math.isnan(value) or math.isinf(value):
         return value
 
+    # to_integral_value() does not depend on the precision of the decimal context:
+    # quantize() raises InvalidOperation for values with more than 28 digits (1e300)
     number = Decimal(value)
     if number > 0:
-        return type(value)(number.quantize(Decimal('1'), rounding='ROUND_HALF_UP'))
+        return type(value)(number.to_integral_value(rounding='ROUND_HALF_UP'))
     else:
-        return type(value)(number.quantize(Decimal('1'), rounding='ROUND_HALF_DOWN'))
+        return type(value)(number.to_integral_value(rounding='ROUND_HALF_DOWN'))
 
 
 def normalized_seconds(seconds: Union[int, Decimal]) -> str:
